@@ -229,6 +229,8 @@ func RunCase(seed uint64, idx int, p *Profile, o *Opts, st *Stats) (cr *CaseResu
 			} else {
 				st.ExpPanics++
 			}
+		} else if x.Either {
+			cr.Cov["debug-guarded-call-returned"]++
 		} else if x.Panic {
 			d.viol("C10", "misuse-accepted", "%s (%s, handle kind %s) returned normally, expected a panic", MisuseTable[op.Slot].Name, MisuseTable[op.Slot].Class, staleNames[op.Sub%NStale])
 		}
